@@ -84,12 +84,17 @@ func (c *Ctx) Check(construct string, pos token.Pos, ok bool, detail string) boo
 	if !ok {
 		st = Violation
 	}
+	if ok {
+		detail = ""
+	}
 	c.add(Finding{Rule: c.curRule, Construct: construct, Pos: c.P.Pos(pos), Status: st, Detail: detail})
 	return ok
 }
 
 // Good / Bad are shorthands.
-func (c *Ctx) Good(construct string, pos token.Pos, detail string) { c.Check(construct, pos, true, detail) }
+func (c *Ctx) Good(construct string, pos token.Pos, detail string) {
+	c.add(Finding{Rule: c.curRule, Construct: construct, Pos: c.P.Pos(pos), Status: OK, Detail: detail})
+}
 func (c *Ctx) Bad(construct string, pos token.Pos, detail string)  { c.Check(construct, pos, false, detail) }
 
 // Unsure records an undecidable instance (counts as failure of the checker, not a violation).
